@@ -14,7 +14,9 @@ class C15(Prop):
     property_obs = ("class", "value", "prep", "vars", "get")
     rule = ("programs that copy a value along chains (variable -> variable -> parameter -> array element -> field read) and then apply "
             "each mutator (++ -- += -= *= /=) to one link; literals on both sides of the inline limit (65534/65535/65536/70000) and floats; "
-            "once, in loops and over several runs on one prepared evaluator; every alias observed; expectations computed in the generator")
+            "once, in loops and over several runs on one prepared evaluator; every alias observed; expectations computed in the generator; "
+            "plus random sequences of copies (assignment, array/hash literal, element read, call, foreach, loop remembering the previous "
+            "counter) interleaved with mutators on three variables, run 1-3 times on one evaluator and judged against the model (value semantics)")
 
     def cases(self, rng, tier):
         out = []
@@ -62,6 +64,29 @@ class C15(Prop):
         # the persistent counter: the only thing that changes between runs is the variable itself
         out.append(case("if (n) { n++; } else { n = 1; } return [n, 1];", [enc_value([1, 1]), enc_value([2, 1]), enc_value([3, 1])], "counter", runs=3))
         out.append(case("x = 70000; x++; return [x, 70000];", [enc_value([70001, 70000])] * 3, "pool-constant", runs=3))
+        # random sequences of copies and mutations: the model has value semantics, so any sharing shows up as a disagreement
+        for _ in range(4000 if tier == "thorough" else 400):
+            out.append(Case("run", {"script": vlib.hx(alias_program(rng)), "objs": "N",
+                                    "ops": ";".join(["prepare:" + rng.choice(["opt", "noopt"])] + ["exec:0"] * rng.choice([1, 2, 3]) +
+                                                    ["getvar:" + vlib.hx(v) for v in ("a", "b", "c", "prev")])}, "alias-sequences"))
         return out
+
+def alias_program(rng):
+    V = ["a", "b", "c"]
+    pre = "function f(p) { p++; p++; return p; } function g(p) { q = p; p--; return [p, q]; } function k(p) { return p; } "
+    st = ["%s = %s;" % (v, lit(rng.choice(LITS))) for v in V] if rng.random() < 0.8 else ["if (!a) { a = 1; b = 2.5; c = 70000; }"]
+    st += ["arr = [a, b];", "h = {\"k\": c};", "prev = 0;", "r = 0;"]
+    for _ in range(rng.randint(3, 9)):
+        X, Y = rng.choice(V), rng.choice(V)
+        st.append(rng.choice([
+            "%s++;" % X, "%s++;" % X, "%s--;" % X, "%s += 2;" % X, "%s -= 1;" % X, "%s *= 2;" % X,
+            "%s = %s;" % (Y, X), "%s = %s;" % (Y, X), "prev = %s;" % X, "arr = [%s, %s];" % (X, Y), "h = {\"k\": %s};" % X,
+            "%s = arr[0];" % Y, "%s = h[\"k\"];" % Y, "r = f(%s);" % X, "r = g(%s);" % X, "%s = k(%s);" % (Y, X),
+            "foreach e in [%s, %s] { e++; r = e; }" % (X, Y), "foreach e in arr { e--; }",
+            "w = 0; while (w < 2) { prev = %s; %s++; w++; }" % (X, X), "w = 0; while (w < 3) { prev = %s; %s--; w += 1; }" % (X, X),
+            "if (%s > %s) { %s++; } else { %s--; }" % (X, Y, X, Y), "%s = %s + 0;" % (Y, X), "%s = %s == %s ? %s : %s;" % (Y, X, Y, X, Y),
+        ]))
+    st.append("return [a, b, c, arr, h, prev, r];")
+    return pre + " ".join(st)
 
 PROP = C15()
